@@ -15,7 +15,7 @@ META = {
 }
 META["text"] = (
     "Proved in Coq about Model/Deriv.v: (C25_linear_terms, over R, all inputs) for dof damping with zero polynomial coefficients, tendon damping through an arbitrary Jacobian row J and actuators with affine gain and bias through an arbitrary moment row J, "
-    "the generalized force is affine in qvel and its exact secant slope for EVERY perturbation w equals what the analytic code adds to qDeriv (-damping on the diagonal; J^T B J with B = -mjd_xPolyForce; J^T (biasprm[2] + gainprm[2]*input) J as computed by mjd_actuator_vel); "
+    "the generalized force is affine in qvel and its exact secant slope for EVERY perturbation w equals what the analytic code adds to qDeriv (-damping on the diagonal; J^T B J with B = -mjd_xPolyForce; J^T (biasprm[2] + gainprm[2]*input) J as computed by mjd_actuator_vel, for every input, in particular the control clamped to ctrlrange that the code uses since /repo e72d433e4); "
     "(C25_poly_damping_partial, over R, Coquelicot) for the general polynomial damping loops mju_polyForce / mjd_xPolyForce with any number of coefficients and v <> 0, the slope mjd_passive_vel puts on the diagonal is the derivative of the dof damping force -v*polyForce(b, poly, |v|) (v = 0 and the tendon composition are not covered); "
     "(C25_clamped_diff, over R) every branch of clampedDiff (forward, backward, centred) returns the exact slope of an output that is affine in the perturbed variable and zeros when no direction is given; the control loop of mjd_stepFD (nudge_fwd / nudge_back chosen with inRange as written, any flg_centered, limited or not, control inside / at the edge of / outside ctrlrange, any eps > 0) applied to an output affine in the clamped control returns the exact slope whenever a nudge is allowed and zero otherwise, and allowed nudges stay inside the range; "
     "(C25_fd_restores, all tables/evaluations) the save / nudge / mj_stepSkip / mj_setState skeleton of mjd_stepFD (which mjd_transitionFD wraps), for every table of state elements with distinct fields (C26), every restore signature the state API accepts, every list of perturbed evaluations and "
@@ -121,7 +121,7 @@ def run(ctx):
     ALL = 0x7FFFF
     # ---- requests: fixed corpus first (replays of the recorded findings), then generated cases
     scases = [(27, 1, 1, 3, 1, 0), (40, 1, 2, 3, 1, 0),            # ellipsoid fluid on small geoms
-              (5, ALL, 3, 3, 2, 0), (9, ALL, 4, 3, 2, 2),          # damper actuator, ctrl outside its range
+              (5, ALL, 3, 3, 2, 0), (9, ALL, 4, 3, 2, 2),          # damper actuator, ctrl outside its range (fixed in /repo e72d433e4)
               (3, ALL, 5, 2, 0, 0), (15, ALL, 5, 2, 0, 0)]         # tendons / actuators across branches
     tcases = [(8, ALL, 2, 2, 32 + 30, 3), (13, ALL, 3, 2, 32 + 30, 2), (4, ALL, 2, 2, 32, 0)]
     ns_, nt_ = (26, 10) if quick else (600, 200)
@@ -213,8 +213,11 @@ def run(ctx):
                 elif t[0] == "LINQ":
                     LINQ = [unhx(x) for x in t[2:]]
                 elif t[0] == "LINA":
-                    v = [unhx(x) for x in t[3:]]
-                    acts.append((int(t[1]), int(t[2]), v[0], v[1], v[2], v[3:6], v[6:9], v[9], v[10:10 + nv]))
+                    climited = int(t[13])
+                    v = [unhx(x) for x in t[3:13]] + [unhx(x) for x in t[14:]]
+                    # input as mjd_actuator_vel forms it: the control clamped to its range when limited (model function ctrl_input)
+                    inp = "(ctrl_input %s %s %s %s)" % ("true" if climited else "false", fl(v[9]), fl(v[10]), fl(v[11]))
+                    acts.append((int(t[1]), int(t[2]), v[0], v[1], v[2], v[3:6], v[6:9], inp, v[12:12 + nv]))
                 elif t[0] == "LINT":
                     npoly = int(t[1]); v = [unhx(x) for x in t[2:]]
                     tens.append((v[0], v[1], v[2:2 + npoly], v[2 + npoly:2 + npoly + nv]))
@@ -258,7 +261,9 @@ def run(ctx):
                 if inside:
                     sig = {"site": "mjd_smooth_vel", "class": "analytic-vs-finite-difference"}
                     if QDC is not None and all(abs(QDC[i] - FD[i]) <= 1e-5 * sc for i in range(nv * nv) if mask[i]):
-                        sig = SIG_F2          # the same analytic code agrees once ctrl is clamped like the force law clamps it
+                        # the analytic code agrees once ctrl is clamped like the force law clamps it: the defect fixed in /repo e72d433e4
+                        # (formerly known finding C25-F2) is back; reported as an ordinary violation
+                        sig = {"site": "mjd_actuator_vel", "class": "velocity-gain-times-unclamped-ctrl"}
                         stats["F2_reps"] += 1
                     elif guards and min(guards) < MJMINVAL:
                         sig = SIG_F3          # the mjMINVAL guard of the projected-area derivative is active for an ellipsoid-fluid geom
@@ -271,7 +276,7 @@ def run(ctx):
                 stats["reps_linear_model"] += 1
                 al = "[" + "; ".join("(%s, %s, %s, %s, %s, %s, (%s, %s, %s), (%s, %s, %s), %s)" % (
                     "true" if a[0] else "false", "true" if a[1] else "false", fl(a[2]), fl(a[3]), fl(a[4]), flit(a[8]),
-                    fl(a[5][0]), fl(a[5][1]), fl(a[5][2]), fl(a[6][0]), fl(a[6][1]), fl(a[6][2]), fl(a[7])) for a in acts) + "]" if acts else "(@nil (@actuator float))"
+                    fl(a[5][0]), fl(a[5][1]), fl(a[5][2]), fl(a[6][0]), fl(a[6][1]), fl(a[6][2]), a[7]) for a in acts) + "]" if acts else "(@nil (@actuator float))"
                 tl = "[" + "; ".join("(%s, %s, %s, %s)" % (flit(t[3]), fl(t[0]), flit(t[2]), fl(t[1])) for t in tens) + "]" if tens else "(@nil (@tendon float))"
                 dl = "[" + "; ".join("(%s, %s, %s)" % (fl(x[0]), flit(x[2]), fl(x[1])) for x in dofs) + "]"
                 ml = "[" + "; ".join("true" if x else "false" for x in mask) + "]"
